@@ -8,6 +8,7 @@ package harness
 // acknowledged ones.
 
 import (
+	"strings"
 	"context"
 	"fmt"
 	"math/rand/v2"
@@ -22,7 +23,48 @@ import (
 	"verifsim/simrt"
 )
 
+// genConcShared: the concurrent workload over ONE small key space shared by all sessions (both instances,
+// explicit and cross-instance group references, REPLACE and DELETE of referenced entries). Operations of a
+// superseded primary that passed admission run concurrently with the new primary's, so check-then-act
+// sequences of different sessions interleave on the same keys. There is no per-session model here; the
+// oracle is what every linearizable outcome satisfies: no dangling reference, reference counters equal to
+// the referrers, exactly-once results, no panic or stuck state, the service probe.
+func genConcShared(seed uint64, prop string) *Scenario {
+	sc := genConc(seed, prop)
+	sc.Family = "concshared"
+	r := rand.New(rand.NewPCG(seed, 0x63736864))
+	g := newGen(seed, 0x63736865, &sc.Cfg)
+	g.wDel += 2
+	var steps []Step
+	for i := range sc.Steps {
+		st := sc.Steps[i]
+		switch st.T {
+		case "s-ops":
+			st.Ops = nil
+			for k := 0; k < 3+r.IntN(8); k++ {
+				var op *spb.AFTOperation
+				if r.IntN(4) == 0 {
+					ops := g.chain()
+					op = ops[r.IntN(len(ops))]
+				} else {
+					op = g.randomOp()
+				}
+				op.Id = uint64(100000*(st.Sess+1)) + g.id()
+				st.Ops = append(st.Ops, opJSON(op))
+			}
+		case "flusher":
+			if !st.Flush.All {
+				continue // partial flushes legitimately leave dangling references: not in this family
+			}
+		}
+		steps = append(steps, st)
+	}
+	sc.Steps = steps
+	return sc
+}
+
 func init() {
+	families["concshared"] = &family{gen: genConcShared, run: runConc}
 	families["conc"] = &family{gen: genConc, run: runConc}
 }
 
@@ -503,6 +545,12 @@ func runConc(e *env) {
 								sig = "result for another session's operation that may have been held"
 							}
 						}
+						if e.sc.Family == "concshared" && strings.HasSuffix(sig, "may have been held") {
+							// shared keys: another session's install resolved it - the known finding about held
+							// operations being keyed by id only (C06's clause, not a concurrency defect)
+							e.report("C06", "foreign-result", "result for held operation of another session (shared key space)", fmt.Sprintf("stream of session %d: %v", sn, res), true)
+							continue
+						}
 						e.report("C11", "foreign-result", sig, fmt.Sprintf("stream of session %d: %v", sn, res), true)
 						continue
 					}
@@ -534,7 +582,13 @@ func runConc(e *env) {
 		}
 		e.probe("closure of references checked at quiescence")
 	}
+	shared := e.sc.Family == "concshared"
 	switch {
+	case shared:
+		e.probe("shared key space: invariants only")
+		e.propOverride = "C11"
+		e.checkpoint(func() { e.checkRefCounts("C03") })
+		e.propOverride = ""
 	case flushRan:
 		e.probe("a Flush overlapped the modifications")
 	case cancelled:
